@@ -93,6 +93,15 @@ void h_string_null(void)
     V_ASSERT(rtosc_arg_vals_eq_single(&r, &l, NULL) == (s == 0), "C16 eq_single(r, NULL string) == (spec_sign == 0)");
     if(rlen < 0)
         V_ASSERT(rtosc_arg_vals_cmp_single(&l, &r, NULL) == 0, "C16 cmp_single(NULL string, NULL string) == 0");
+#ifdef H_NULL_CMP_NONZERO
+    /* "returns 0 exactly when the equality test reports equal" also for NULL against a real string. Only != 0 is
+     * asserted, not the sign: the code orders the two POINTERS here (no model for that in CBMC, hence this variant is
+     * run with the pointer checks off; natively NULL sorts first). */
+    if(rlen >= 0) {
+        V_ASSERT(rtosc_arg_vals_cmp_single(&l, &r, NULL) != 0, "C16 cmp_single(NULL string, string) != 0 as eq_single says they differ");
+        V_ASSERT(rtosc_arg_vals_cmp_single(&r, &l, NULL) != 0, "C16 cmp_single(string, NULL string) != 0 as eq_single says they differ");
+    }
+#endif
 }
 #endif
 
